@@ -26,10 +26,13 @@ def dim_name(axis, pos):
 
 
 @st.composite
-def axis_layout(draw, name, min_n=2, max_n=6, need_shift=False, allow_default_shifts=True):
+def axis_layout(draw, name, min_n=2, max_n=6, need_shift=False, allow_default_shifts=True, big_n=False):
     others = draw(st.sets(st.sampled_from(OTHER_POS), min_size=1 if need_shift else 0))
     positions = ["center"] + [p for p in OTHER_POS if p in others]
-    n = draw(st.integers(min_n, max_n))
+    if big_n and draw(st.integers(0, 7)) == 0:
+        n = draw(st.integers(10, 48))  # now and then a long axis (no size-dependent branch may hide behind small n)
+    else:
+        n = draw(st.integers(min_n, max_n))
     ds = None
     if allow_default_shifts and others and draw(st.integers(0, 3)) == 0:
         ds = {}
@@ -44,13 +47,13 @@ def axis_layout(draw, name, min_n=2, max_n=6, need_shift=False, allow_default_sh
 
 
 @st.composite
-def layouts(draw, min_axes=1, max_axes=3, min_n=2, max_n=6, max_cells=400, **kw):
+def layouts(draw, min_axes=1, max_axes=3, min_n=2, max_n=6, max_cells=400, big_n=False, **kw):
     k = draw(st.integers(min_axes, max_axes))
     axes = []
     budget = max_cells
     for i in range(k):
         mx = max(min_n, min(max_n, int(budget ** (1.0 / (k - i))) if budget > 1 else min_n))
-        ax = draw(axis_layout(AXIS_NAMES[i], min_n=min_n, max_n=mx, **kw))
+        ax = draw(axis_layout(AXIS_NAMES[i], min_n=min_n, max_n=mx, big_n=(big_n and k == 1), **kw))
         budget = max(1, budget // (ax["n"] + 1))
         axes.append(ax)
     return axes
